@@ -23,14 +23,15 @@ NULL_WRITERS = ('__setitem__', 'update', 'setdefault')
 class Cache(object):
     """per-run cache of enumerated method paths"""
 
-    def __init__(self, repo):
+    def __init__(self, repo, unroll=1):
         self.repo = repo
+        self.unroll = unroll
         self.d = {}
 
     def outs(self, ci, name, params=None, key=None):
         k = (ci.label, name, key)
         if k not in self.d:
-            self.d[k] = run_method(self.repo, ci, name, params=params)
+            self.d[k] = run_method(self.repo, ci, name, params=params, unroll=self.unroll, comp_unroll=self.unroll)
         return self.d[k]
 
 
